@@ -111,15 +111,15 @@ def build(cols, rows, i2c, ops):
             extra = ("" if w is None else f", width={w}") + f", style={style!r}" + ("" if label is None else f", label={label!r}")
             body.append(f"lcd.progress({r}, {v}, {mx}{extra})")
             reqs.append(f"prog {r} {v} {mx} {'-' if w is None else w} {style} {'-' if not label else hexs(label)}")
-        elif k == "bl":
-            body.append(f"lcd.backlight({op[1]})")
-            reqs.append(f"bl {T(op[1])}")
-        elif k == "disp":
-            body.append(f"lcd.display({op[1]})")
-            reqs.append(f"disp {T(op[1])}")
-        elif k == "bri":
-            body.append(f"lcd.brightness({op[1]})")
-            reqs.append(f"bri {op[1]}")
+        elif k in ("bl", "disp", "bri"):
+            # every second such call passes its argument through a variable (the non-literal emission path)
+            arg = repr(op[1])
+            if len(body) % 4 == 0:
+                nv[0] += 1
+                lines.append(f"fv{nv[0]} = {op[1]!r}")
+                arg = f"fv{nv[0]}"
+            body.append(f"lcd.{ {'bl': 'backlight', 'disp': 'display', 'bri': 'brightness'}[k]}({arg})")
+            reqs.append(f"bl {T(op[1])}" if k == "bl" else f"disp {T(op[1])}" if k == "disp" else f"bri {op[1]}")
         else:
             body.append(f"lcd.glyph({op[1]}, {op[2]!r})")
             reqs.append("glyph " + str(op[1]) + " " + " ".join(map(str, op[2])))
@@ -192,6 +192,13 @@ def run(ctx: Ctx) -> int:
         cases.append((g[0], g[1], c[2], ops_g))
     for _ in range(ctx.n(70, 400)):
         cases.append(gen_case(rng))
+    # pinned: message(clear_rows=False) over existing content keeps what the new text does not cover — on both rows, both wirings
+    for wiring in (False, True):
+        for clear in (False, True):
+            cases.append((16, 2, wiring, [("ln", 0, "TEMP:      C", "left", True, False), ("ln", 1, "HUM:       %", "left", True, False),
+                                          ("msg", "21", "40", "center", "center", clear)]))
+            cases.append((20, 4, wiring, [("ln", 1, "abcdefghijklmnopqr", "left", True, False), ("msg", None, "Z", "right", "left", clear),
+                                          ("msg", "top", None, "left", "left", clear)]))
     # pinned: message() on a one-row display (firmware writes row 1 unconditionally)
     cases.append((16, 1, False, [("msg", "top", "bottom", "left", "left", True)]))
     built = [build(*c) for c in cases]
